@@ -17,7 +17,12 @@ SPEC = {
     "targets": ["C15/Property.vo"],
     "theorems": ["C15_replies_paired", "C15_change_sets_exact", "C15_nothing_before_first",
                  "C15_other_steps_keep_history", "C15_nonvacuous"],
-    "streams": [dict(STREAM, name="srv15")],
+    "streams": [dict(STREAM, name="srv15"),
+                {"name": "readers", "bin": "c15", "check_module": "C15.Spec", "fn": "check_rcase", "casetype": "rcase",
+                 "env": {"C15_STREAM": "readers"},
+                 "why": {"2": "a single reader operation (RTR full/diff, GET /json, GET /json-delta) took the history lock more "
+                              "than once and, with a validation cycle injected between the two acquisitions, returned a "
+                              "serial paired with data of another version"}}],
     "level_text": "Theorems for every server state reachable by any sequence of the validation thread's atomic steps "
                   "(install / mark done / notify, any number of cycles): every reader operation - each one atomic step in "
                   "the model, as each takes the history lock once in the code - pairs the current serial with exactly the "
@@ -25,7 +30,10 @@ SPEC = {
                   "Partial: lock atomicity (std RwLock) and the claim 'one lock acquisition per operation' are not proved "
                   "about the Rust code; the latter is checked by the correspondence, which stops the validation thread "
                   "before every lock acquisition (hook in SharedHistory::read/write) and probes every reader at every gap, "
-                  "so an operation or an update split over two acquisitions exposes an extra gap with inconsistent answers.",
+                  "so an update split over two acquisitions exposes an extra gap with inconsistent answers; the dual stream "
+                  "`readers` stops every READER operation before each of its lock acquisitions and runs a whole validation "
+                  "cycle before the second one, so an operation that reads serial and data under two acquisitions returns "
+                  "an answer that matches no single instant.",
     "level_note": "Model: C13 history model + creation time + notification generation (coq/C15/Model.v) transcribed from "
                   "src/payload/history.rs, src/operation.rs process_once, src/http/payload.rs, src/http/response.rs "
                   "maybe_not_modified, src/http/delta.rs. Tie: real Engine (no TALs) + real Server::process_once + real HTTP "
